@@ -615,4 +615,240 @@ Proof.
     pose proof (existsb_false_all _ _ ES x Hx) as H0. cbv beta in H0. apply negb_false_iff, is0_true in H0. rewrite H0. apply mem_0.
 Qed.
 
+
+(* ---------------------------------------------------------------- state invariant *)
+Definition iresp_ok6 (nx : N) (r : iresp) : Prop :=
+  nx <= ir_next r /\ (forall i, nx <= i -> i < ir_next r -> mem i (ir_add r) = true) /\
+  (ir_idx r <> [] -> exists i, mem i (union (union (ir_upd r) (ir_rst r)) (ir_add r)) = true).
+
+Definition ranked (ts : tags_t) : Prop :=
+  forall n t, In (n, t) ts -> t_live t = true ->
+    (forall x, In x (d_refs (t_def t)) -> x < n /\ exists tx, tget x ts = Some tx) /\ def_ok (t_def t).
+
+Definition dirty_of (st : state) : bool := negb (is0 (m_upd st) && is0 (m_rst st) && is0 (m_add st)).
+
+Definition jinv (st : state) : Prop :=
+  forall j, jtag st = Some j -> exists rs h0,
+    hist st = rs ++ h0 /\ length h0 = tj_hist j /\
+    effects_in rs (m_upd st) (m_rst st) (m_add st) /\
+    (rs <> [] -> dirty_of st = true) /\
+    (forall id, hnext h0 <= id -> id < next st -> mem id (m_add st) = true) /\
+    (forall id, id < hnext h0 -> mem id (tj_u j) = false ->
+       mem id (tj_m j) = truth h0 (tj_def j) (rho_snap (tj_snap j)) id) /\
+    (forall res, tj_res j = Some res -> forall id,
+       mem id res = if mem id (tj_u j) then truth h0 (tj_def j) (rho_snap (tj_snap j)) id else mem id (tj_m j)).
+
+Definition impjob6 (st : state) : Prop := forall n r, jimp st = Some (mkImp n (Some r)) -> iresp_ok6 (next st) r.
+
+Definition Sinv (st : state) : Prop :=
+  inv (hist st) (next st) (tags st) /\ next st = hnext (hist st) /\ sorted (tags st) /\ ranked (tags st) /\
+  jinv st /\ impjob6 st.
+
+(* fields the invariant reads *)
+Definition sfields (st st' : state) : Prop :=
+  tags st' = tags st /\ hist st' = hist st /\ next st' = next st /\ m_upd st' = m_upd st /\ m_rst st' = m_rst st /\
+  m_add st' = m_add st /\ jtag st' = jtag st /\ jimp st' = jimp st.
+
+Lemma sinv_fields st st' : sfields st st' -> Sinv st -> Sinv st'.
+Proof.
+  intros (F1 & F2 & F3 & F4 & F5 & F6 & F7 & F8). unfold Sinv, jinv, impjob6, dirty_of.
+  rewrite F1, F2, F3, F4, F5, F6, F7, F8. auto.
+Qed.
+
+Lemma start_converter_sfields st : sfields st (start_converter st).
+Proof.
+  unfold start_converter. destruct (jconv st); [repeat split|]. destruct (filter _ (convs st)); repeat split.
+Qed.
+Lemma start_merge_sfields st : sfields st (start_merge st).
+Proof. unfold start_merge. destruct (merge_eligible st); repeat split. Qed.
+
+Lemma sinv_start_converter st : Sinv st -> Sinv (start_converter st).
+Proof. apply sinv_fields, start_converter_sfields. Qed.
+Lemma sinv_start_merge st : Sinv st -> Sinv (start_merge st).
+Proof. apply sinv_fields, start_merge_sfields. Qed.
+
+(* ---------------------------------------------------------------- starting a tagging job *)
+Lemma in_split_sorted (ts : tags_t) (n : N) (t : tag) : In (n, t) ts -> exists pre r, ts = pre ++ (n, t) :: r.
+Proof. intros H. destruct (in_split _ _ H) as (a & b & E). exists a, b. exact E. Qed.
+
+Lemma eligible_spec ts n : eligible ts n = true ->
+  exists t, tget n ts = Some t /\ forall x, In x (d_refs (t_def t)) -> tu x ts = 0.
+Proof.
+  unfold eligible. destruct (tget n ts) as [t|]; [|discriminate]. intros H. apply andb_true_iff in H. destruct H as [_ H].
+  exists t. split; [reflexivity|]. intros x Hx. rewrite forallb_forall in H. apply is0_true. apply H. exact Hx.
+Qed.
+
+Lemma first_eligible_spec ts n : first_eligible ts = Some n -> eligible ts n = true.
+Proof.
+  unfold first_eligible. destruct (filter _ ts) as [|[k t] l] eqn:E; [discriminate|]. intros H; inversion H; subst.
+  assert (In (n, t) (filter (fun nt => eligible ts (fst nt)) ts)) as I by (rewrite E; left; reflexivity).
+  apply filter_In in I. exact (proj2 I).
+Qed.
+
+Lemma lookupN_map_snap (f : N -> N) l x : In x l -> lookupN x (map (fun r => (r, f r)) l) = f x.
+Proof.
+  unfold lookupN. induction l as [|a l IH]; simpl; [intros []|]. destruct (N.eqb_spec a x).
+  - subst. reflexivity.
+  - intros [E|I]; [congruence|apply IH; exact I].
+Qed.
+
+Lemma sinv_start_tagging p st : Sinv st -> Sinv (start_tagging p st).
+Proof.
+  intros HS. pose proof HS as (HI & Hn & So & Ra & Ji & Im). unfold start_tagging.
+  destruct (jtag st) eqn:J; [exact HS|].
+  destruct (if eligible (tags st) p then Some p else first_eligible (tags st)) as [n|] eqn:EC; [|exact HS].
+  assert (eligible (tags st) n = true) as EL.
+  { destruct (eligible (tags st) p) eqn:E; [inversion EC; subst; exact E|apply first_eligible_spec; exact EC]. }
+  destruct (eligible_spec _ _ EL) as (t & Tn & Tr). rewrite Tn.
+  split; [exact HI|split; [exact Hn|split; [exact So|split; [exact Ra|split; [|exact Im]]]]].
+  intros j Hj. simpl in Hj. inversion Hj; subst; clear Hj. exists [], (hist st). simpl.
+  split; [reflexivity|split; [reflexivity|split; [intros x []|split; [congruence|split; [intros; lia|split; [|discriminate]]]]]].
+  intros id Hid Hu.
+  destruct (tget_In _ _ _ Tn) as (In_n & Ln). destruct (in_split_sorted _ _ _ In_n) as (pre & r & E).
+  destruct (Ra n t In_n Ln) as (Rf & Dok).
+  rewrite E in HI. pose proof (inv_app_r _ _ _ _ HI) as HI'. simpl in HI'. destruct HI' as (I1 & I2).
+  rewrite <- Hn in Hid. rewrite (I1 Ln id Hid Hu). apply H_ext.
+  - intros x Hx. assert (In x (d_refs (t_def t))) as Hx' by (apply in_or_app; left; exact Hx).
+    destruct (Rf x Hx') as (Lx & tx & Tx). unfold rho_snap. rewrite lookupN_map_snap; [|exact Hx'].
+    assert (tget x r = Some tx) as Txr by (rewrite <- Tx, E; symmetry; apply tget_tail; [rewrite <- E; exact So|exact Lx]).
+    unfold tm. rewrite Tx. symmetry. apply (inv_lookup _ _ _ _ _ I2 Txr id Hid).
+    pose proof (Tr x Hx') as U0. unfold tu in U0. rewrite Tx in U0. rewrite U0. apply mem_0.
+  - intros x Hx j Hj. assert (In x (d_refs (t_def t))) as Hx' by (apply in_or_app; right; exact Hx).
+    destruct (Rf x Hx') as (Lx & tx & Tx). unfold rho_snap. rewrite lookupN_map_snap; [|exact Hx'].
+    assert (tget x r = Some tx) as Txr by (rewrite <- Tx, E; symmetry; apply tget_tail; [rewrite <- E; exact So|exact Lx]).
+    unfold tm. rewrite Tx. symmetry. rewrite <- Hn in Hj. apply (inv_lookup _ _ _ _ _ I2 Txr j Hj).
+    pose proof (Tr x Hx') as U0. unfold tu in U0. rewrite Tx in U0. rewrite U0. apply mem_0.
+Qed.
+
+
+(* ---------------------------------------------------------------- names, ranks are kept by updates *)
+Lemma Forall2_In_r {A B} (R : A -> B -> Prop) a b y : Forall2 R a b -> In y b -> exists x, In x a /\ R x y.
+Proof.
+  induction 1; intros []; [subst; eexists; split; [left; reflexivity|assumption]|].
+  destruct (IHForall2 H1) as (x0 & I & Rx). exists x0. split; [right|]; assumption.
+Qed.
+
+Lemma sorted_same a b : Forall2 same1 a b -> sorted a -> sorted b.
+Proof.
+  induction 1 as [|[k t] [k' t'] ra rb (E1 & _) HR IH]; [auto|]. simpl in *. subst k'.
+  intros (S1 & S2). split; [|apply IH; exact S2].
+  intros k' t'' I. destruct (Forall2_In_r _ _ _ _ HR I) as ([k0 t0] & I0 & (E & _)). simpl in E. subst. eapply S1; exact I0.
+Qed.
+
+Lemma same1_tget a b x tx : Forall2 same1 a b -> tget x a = Some tx -> exists tx', tget x b = Some tx'.
+Proof.
+  intros H T. destruct (Forall2_tget same1 a b x tx H) as (tx' & T' & _); [|exact T|exists tx'; exact T'].
+  intros u v (A & _ & C). split; assumption.
+Qed.
+
+Lemma ranked_same a b : Forall2 same1 a b -> ranked a -> ranked b.
+Proof.
+  intros H R n t' I L. destruct (Forall2_In_r _ _ _ _ H I) as ([k t] & I0 & (E1 & E2 & E3)). simpl in *. subst k.
+  rewrite <- E3 in L. destruct (R n t I0 L) as (Rf & Dk). rewrite <- E2. split; [|exact Dk].
+  intros x Hx. destruct (Rf x Hx) as (Lx & tx & Tx). split; [exact Lx|]. eapply same1_tget; eassumption.
+Qed.
+
+Lemma grow_invalidate_tags k nx u r a ts : Forall2 (grow1 nx) ts (invalidate_tags k (ones nx) u r a ts).
+Proof. unfold invalidate_tags. eapply grow_trans; [apply grow_invalidate|apply grow_inherit]. Qed.
+
+Lemma ne0_of_mem i s : mem i s = true -> is0 s = false.
+Proof. intros H. destruct (is0 s) eqn:E; [apply is0_true in E; subst; rewrite mem_0 in H; discriminate|reflexivity]. Qed.
+
+(* ---------------------------------------------------------------- import completion *)
+Lemma sinv_import_core k st r cu q cv tc ca ve ix un jc jm vw :
+  kf_idonly k = false -> Sinv st -> iresp_ok6 (next st) r -> ir_idx r <> [] ->
+  Sinv (mkSt (ir_next r) (invalidate_tags k (ones (ir_next r)) (ir_upd r) (ir_rst r) (ir_add r) (tags st))
+             (union (m_upd st) (ir_upd r)) (union (m_rst st) (ir_rst r)) (union (m_add st) (ir_add r))
+             cu q cv tc ca ve ix un None (jtag st) jc jm (r :: hist st) vw).
+Proof.
+  intros K (HI & Hn & So & Ra & Ji & Im) (R1 & R2 & R3) NE.
+  pose proof (grow_invalidate_tags k (ir_next r) (ir_upd r) (ir_rst r) (ir_add r) (tags st)) as GR.
+  split; [|split; [reflexivity|split; [eapply sorted_same; [eapply grow_same; exact GR|exact So]|
+          split; [eapply ranked_same; [eapply grow_same; exact GR|exact Ra]|split]]]].
+  - simpl. unfold invalidate_tags. eapply inv_urel.
+    + rewrite Hn in *. apply urel_import; [exact K|exact R1|exact R2].
+    + apply closed_inherit.
+    + simpl. lia.
+    + rewrite Hn in HI. rewrite <- Hn. rewrite Hn. exact HI.
+  - intros j Hj. simpl in Hj. destruct (Ji j Hj) as (rs & h0 & E & L & EF & D & J3 & J2 & J1).
+    exists (r :: rs), h0. simpl. split; [rewrite E; reflexivity|split; [exact L|split; [|split; [|split; [|split; [exact J2|exact J1]]]]]].
+    + intros x [<-|Hx] i.
+      * rewrite !mem_union. repeat split; intros ->; apply orb_true_r.
+      * destruct (EF x Hx i) as (A & B & C). rewrite !mem_union. repeat split; intros Hm;
+          [rewrite (A Hm)|rewrite (B Hm)|rewrite (C Hm)]; reflexivity.
+    + intros _. unfold dirty_of. simpl. destruct (R3 NE) as (i & Hi). rewrite !mem_union in Hi.
+      apply negb_true_iff. apply andb_false_iff.
+      apply orb_true_iff in Hi. destruct Hi as [Hi|Hi]; [apply orb_true_iff in Hi; destruct Hi as [Hi|Hi]|].
+      * left. apply andb_false_iff. left. apply (ne0_of_mem i). rewrite mem_union, Hi. apply orb_true_r.
+      * left. apply andb_false_iff. right. apply (ne0_of_mem i). rewrite mem_union, Hi. apply orb_true_r.
+      * right. apply (ne0_of_mem i). rewrite mem_union, Hi. apply orb_true_r.
+    + intros id G Hlt. rewrite mem_union. destruct (N.lt_ge_cases id (next st)) as [A|A].
+      * rewrite (J3 id G A). reflexivity.
+      * rewrite (R2 id A Hlt). apply orb_true_r.
+  - intros n0 r0 H. simpl in H. discriminate.
+Qed.
+
+
+(* ---------------------------------------------------------------- tagging job completion *)
+Lemma listN_eqb_eq a : forall b, listN_eqb a b = true -> a = b.
+Proof.
+  induction a as [|x a IH]; destruct b as [|y b]; simpl; try discriminate; [reflexivity|].
+  intros H. apply andb_true_iff in H. destruct H as [H1 H2]. apply N.eqb_eq in H1. subst. f_equal. apply IH. exact H2.
+Qed.
+
+Lemma defn_eqb_eq a b : defn_eqb a b = true -> a = b.
+Proof.
+  unfold defn_eqb. intros H. repeat (apply andb_true_iff in H; destruct H as [H ?]).
+  destruct a, b; simpl in *. apply N.eqb_eq in H.
+  repeat match goal with X : Bool.eqb _ _ = true |- _ => apply Bool.eqb_prop in X end.
+  repeat match goal with X : listN_eqb _ _ = true |- _ => apply listN_eqb_eq in X end.
+  subst. reflexivity.
+Qed.
+
+Lemma map_id_pair (g : tag -> tag) (l : tags_t) : (forall t, g t = t) -> map (fun nt => (fst nt, g (snd nt))) l = l.
+Proof.
+  intros H. induction l as [|[k t] r IH]; simpl; [reflexivity|]. rewrite H, IH. reflexivity.
+Qed.
+
+Lemma sinv_tag_publish k st n ot m0 u0 cv snap hh res :
+  kf_idonly k = false -> Sinv st ->
+  jtag st = Some (mkTj n (t_def ot) m0 u0 cv snap hh (Some res)) -> tget n (tags st) = Some ot ->
+  let allS := all st in
+  let tp := mkTag (t_def ot) res (u1_of (tags st) snap (t_def ot) allS) (t_conv ot) in
+  let ts1 := tset n tp (tags st) in
+  let ts2 := if dirty_of st then invalidate_tags k allS (m_upd st) (m_rst st) (m_add st) ts1 else inherit allS ts1 in
+  forall st', tags st' = ts2 -> hist st' = hist st -> next st' = next st -> m_upd st' = m_upd st ->
+    m_rst st' = m_rst st -> m_add st' = m_add st -> jtag st' = None -> jimp st' = jimp st -> Sinv st'.
+Proof.
+  intros K (HI & Hn & So & Ra & Ji & Im) J Tn allS tp ts1 ts2 st' F1 F2 F3 F4 F5 F6 F7 F8.
+  destruct (tget_In _ _ _ Tn) as (In_n & Ln). destruct (in_split_sorted _ _ _ In_n) as (pre & r & E).
+  destruct (Ji _ J) as (rs & h0 & EH & _ & EF & D & J3 & J2 & J1). simpl in J2, J1.
+  set (g := fun t => if dirty_of st then invalidate_one k allS (m_upd st) (m_rst st) (m_add st) t else t).
+  assert (ts2 = inherit allS (map (fun nt => (fst nt, g (snd nt))) ts1)) as E2.
+  { unfold ts2, g, invalidate_tags. destruct (dirty_of st); [reflexivity|]. f_equal. symmetry. apply (map_id_pair (fun t => t)). reflexivity. }
+  assert (forall t, t_def (g t) = t_def t /\ t_live (g t) = t_live t /\ t_m (g t) = t_m t /\
+             forall i, i < next st -> mem i (t_u t) = true -> mem i (t_u (g t)) = true) as Hg.
+  { intros t. unfold g. destruct (dirty_of st); [|repeat split; auto].
+    destruct (invalidate_one_rest k allS (m_upd st) (m_rst st) (m_add st) t) as (A & B & C). repeat split; auto.
+    intros i Hi Hm. pose proof (grow_invalidate k (next st) (m_upd st) (m_rst st) (m_add st) [(0, t)]) as G.
+    inversion G; subst. destruct H2 as (_ & _ & G5). simpl in G5. apply G5; assumption. }
+  assert (Forall2 same1 (tags st) ts2) as SM.
+  { rewrite E2. eapply Forall2_trans_same.
+    - apply (Forall2_tset same1 n tp); [intros; repeat split|]. intros k0 t0 I E0. subst k0.
+      assert (t0 = ot) as -> by (eapply sorted_unique; eassumption). unfold same1; simpl. repeat split. exact Ln.
+    - eapply grow_same. eapply grow_trans; [apply grow_map; exact Hg|apply grow_inherit]. }
+  unfold Sinv, jinv, impjob6. rewrite F1, F2, F3, F7, F8.
+  split; [|split; [exact Hn|split; [eapply sorted_same; eassumption|split; [eapply ranked_same; eassumption|split; [discriminate|exact Im]]]]].
+  rewrite E2. unfold ts1. rewrite E. unfold allS, all.
+  destruct (Ra n ot In_n Ln) as (Rf & Dok).
+  apply inv_publish with (g := g); try assumption; try reflexivity.
+  - rewrite <- E. exact So.
+  - rewrite <- E. exact HI.
+  - intros id Hid Hu. simpl.
+    pose proof (publish_obl k h0 rs (next st) n ot pre r (t_def ot) m0 u0 snap res (t_conv ot) (m_upd st) (m_rst st) (m_add st)) as P.
+    cbv zeta in P. rewrite <- EH, <- E in P. apply P; try assumption.
+    + symmetry; exact Hn.
+    + apply J1. reflexivity.
+Qed.
+
 End C06.
